@@ -14,8 +14,9 @@ Open Scope N_scope.
     insert_from_back / insert_before / insert_after / remove / drop / every drawing or printing
     call, at any time, any limiter state, any terminal size, any terminal failures) the invariants
     hold again and the ordering vector is the image of the textbook list operation [a_step]
-    (plain list insertion / deletion / dropping the dropped bars at the head, [r] = the multi draw
-    of the call was not refused by the refresh limiter). *)
+    (plain list insertion / deletion / dropping the dropped bars at the head; [r] is existential
+    HERE - C02_order_step_flag, at the end of this file, pins it to the computed flag [op_reaps] =
+    "a MultiState::draw of the call was attempted, not refused by the refresh limiter"). *)
 Theorem C02_order_step : forall (W H : N) (fails : N -> bool) (s : sys) (a : aspec) (now : N) (o : op),
   MInv s -> Refines s a -> op_ok s o = true ->
   exists r, MInv (step_sys W H fails s now o) /\ Refines (step_sys W H fails s now o) (a_step r a o).
@@ -1054,3 +1055,108 @@ Proof.
     match goal with H : [_] = [] |- _ => discriminate H end.
 Qed.
 Print Assumptions C02_detached_suspend_refuted.
+
+(** ------------------------------------------------------------------------------------------
+    Third audit, finding 4: [AtomicExec] is NOT what the lock brackets give for inc / dec /
+    set_position.  `self.pos.inc(delta); if self.pos.allow(now) { self.tick_inner(now) }`
+    (src/progress_bar.rs:243-249, 252-258, 295-301): the position store and the position limiter
+    are plain atomics touched BEFORE the bar mutex; the footprint table has no event for them, so
+    C02_atomic_brackets_generated is silent about them.  model/MultiInterleave.v part 3 splits these
+    calls into [PStore o] (the store, no lock) and [PBracket b] (limiter, then the locked tick +
+    draw).  EXPLICIT ASSUMPTION of C02_interleaving (and of every use of AtomicExec): AT MOST ONE
+    THREAD ISSUES inc / dec / set_position ON A GIVEN BAR AT A TIME (other threads may do anything
+    else, also on that bar).  Under it the two sections of a call are adjacent as far as that bar's
+    position is concerned, and adjacent sections ARE the atomic step: *)
+Theorem C02_pos_sections_adjacent : forall (W H : N) (fails : N -> bool) (s : sys) (now : N) (o : op) (b : N),
+  (exists d, o = OInc b d \/ o = ODec b d \/ o = OSetPos b d) ->
+  let '(s1, e1) := psec_step W H fails s now (PStore o) in
+  let '(s2, e2) := psec_step W H fails s1 now (PBracket b) in
+  (s2, e1 ++ e2) = (step_sys W H fails s now o, step_out W H fails s now o).
+Proof. exact pos_sections_adjacent. Qed.
+Print Assumptions C02_pos_sections_adjacent.
+
+(** Outside the assumption - two writers on one bar (what ParallelProgressIterator does with clones
+    of one bar): T1 stores (pos 1), T2 stores (pos 2), T2's bracket paints "A2", T1's bracket
+    paints "A2" again.  Both frames show a position the counter really held and never an older
+    one, the final frame shows the final position - nothing the property forbids -, but NO
+    interleaving of the two atomic calls emits these TermLike calls (there is only one, and it
+    paints "A1" then "A2"): the schedule is outside [AtomicExec], C02_interleaving does not speak
+    about it.  On the implementation: c02.rs `thread_stress` runs with two writers per bar (oracle:
+    every painted position is a value the counter held, non-decreasing, final frame = final). *)
+Definition pw_s0 : sys :=
+  mksys [new_bar (Some 9) FAndLeave [PLit [65]; PPos] THidden 0] (new_ms (TTerm (new_ttarget None 0))) 0.
+Definition pw_pre : list (N * pstep) := [(0, PCall (OInsert BEnd 0))].
+Definition pw_race : list (N * pstep) :=
+  [(2000000, PStore (OInc 0 1)); (2000001, PStore (OInc 0 1)); (2000002, PBracket 0); (2000003, PBracket 0)].
+
+(** the bar lines among the emitted TermLike calls (write_str of a non-blank text) *)
+Definition painted_bars (e : list termop) : list text :=
+  flat_map (fun c => match c with TStr (x :: r) => if N.eqb x 32 then [] else [x :: r] | _ => [] end) e.
+
+Theorem C02_pos_sections_two_writers_refuted :
+  let nf := fun _ : N => false in
+  let s1 := fst (psec_run 20 10 nf pw_s0 pw_pre) in
+  (* the section run paints "A2" twice *)
+  painted_bars (snd (psec_run 20 10 nf s1 pw_race)) = [[65;50]; [65;50]]
+  (* the only interleaving of the two atomic calls paints "A1", "A2" *)
+  /\ painted_bars (snd (run_out 20 10 nf s1 [(2000002, OInc 0 1); (2000003, OInc 0 1)])) = [[65;49]; [65;50]]
+  /\ b_pos (get_bar (fst (psec_run 20 10 nf s1 pw_race)) 0) = 2.
+Proof. cbn zeta. repeat split; vm_compute; reflexivity. Qed.
+Print Assumptions C02_pos_sections_two_writers_refuted.
+
+(** ------------------------------------------------------------------------------------------
+    Third audit, finding 5: the reap flag [r] of C02_order_step, COMPUTED.  [op_reaps] (model/
+    MultiLatest.v) = one of the MultiState::draw calls the call makes is attempted (not refused by
+    the refresh limiter); exactly then the dropped bars at the head of the list leave it.  Note
+    what the list [a_order] is: the bars in insertion order INCLUDING dropped bars that are not at
+    the head yet (docs/C02.md, Interpretations, I6): the index of insert / insert_from_back counts
+    them, and when they leave depends on the next painted draw. *)
+Theorem C02_order_step_flag : forall (W H : N) (fails : N -> bool) (s : sys) (a : aspec) (now : N) (o : op),
+  MInv s -> Refines s a -> op_ok s o = true ->
+  MInv (step_sys W H fails s now o)
+  /\ Refines (step_sys W H fails s now o) (a_step (op_reaps W H fails s now o) a o).
+Proof. exact step_sim_flag. Qed.
+Print Assumptions C02_order_step_flag.
+
+(** the audit's witness on the model: add A, B, C; tick each; B.finish_and_clear(); drop(B) (not the
+    head: B stays in the list, invisible); insert(2, D); D.tick(): ordering A, B(dropped), D, C - the
+    screen shows A, D, C.  A user who holds [A, C] might expect A, C, D. *)
+Example C02_insert_counts_dropped_bar :
+  let bar c := new_bar (Some 10) FAndClear [PLit [c]; PPos] THidden 0 in
+  let s0 := mksys [bar 65; bar 66; bar 67; bar 68] (new_ms (TTerm (new_ttarget None 0))) 0 in
+  let h := [(0, OInsert BEnd 0); (0, OInsert BEnd 1); (0, OInsert BEnd 2);
+            (1000000, OTick 0); (2000000, OTick 1); (3000000, OTick 2);
+            (4000000, OFinish 1 FAndClear); (5000000, ODrop 1);
+            (6000000, OInsert (BIndex 2) 3); (7000000, OTick 3)] in
+  let st := ms_run 6 10 (s0, mghost0, term_init) h in
+  MultiSpec.hist_ok 6 10 nofaults s0 h /\ FitsAll 6 10 s0 h
+  /\ ms_order (s_mp (fst (fst st))) = [0; 1; 3; 2]
+  /\ map (alive (fst (fst st))) [0; 1; 2; 3] = [true; false; true; true]
+  /\ screen 6 (snd st) = map (pad 6) [[65;48]; [68;48]; [67;48]]
+  /\ map (fun k => op_reaps 6 10 nofaults (MultiSpec.run 6 10 nofaults s0 (firstn k h))
+                            (fst (nth k h (0, OMClear))) (snd (nth k h (0, OMClear)))) [6; 7; 8; 9]%nat
+     = [true; false; false; true].
+Proof. cbn zeta. split; [vm_compute; repeat split|]. split; [vm_compute; repeat (split || intro)|]. vm_compute. repeat split. Qed.
+
+(** Third audit, finding 22: an instance of C02_kept_bottom_partial with a KEPT ROW and PADDING at
+    the same time.  4 x 10 terminal, Bottom alignment, bars A B C D ticked; A finishes and is
+    dropped at the head while the region is full (no padding yet: the Keep is outside D22);
+    B.finish_and_clear() then shrinks the region: one padding row between the kept row "A10" and
+    the live rows.  All hypotheses by computation; ghost and screen computed.
+    (The conjunct [t = snd (ms_run ..)] of C02_kept_bottom_partial holds by construction - bs_step
+    and ms_step execute the same emitted calls; its content is [bg_top gB = gT] and the screen.) *)
+Example C02_kept_bottom_with_padding :
+  let bar c := new_bar (Some 10) FAndLeave [PLit [c]; PPos] THidden 0 in
+  let s0 := mksys [bar 65; bar 66; bar 67; bar 68] (new_ms (TTerm (new_ttarget None 0))) 0 in
+  let h := [(0, OSetAlign Bottom); (0, OInsert BEnd 0); (0, OInsert BEnd 1); (0, OInsert BEnd 2); (0, OInsert BEnd 3);
+            (1000000, OTick 0); (2000000, OTick 1); (3000000, OTick 2); (4000000, OTick 3);
+            (5000000, OFinish 0 FAndLeave); (6000000, ODrop 0);
+            (7000000, OFinish 1 FAndClear); (8000000, OTick 2)] in
+  let st := bs_run 4 10 (s0, bghost0, term_init) h in
+  FitsAllB 4 10 s0 h /\ NoPadReap 4 10 (s0, bghost0, term_init) h /\ MultiSpec.hist_ok 4 10 nofaults s0 h
+  /\ snd (fst st) = mkbg [] [[65;49;48]] 1 [[67;48]; [68;48]]
+  /\ screen 4 (snd st) = map (pad 4) [[65;49;48]; []; [67;48]; [68;48]].
+Proof.
+  cbn zeta. split; [vm_compute; repeat (split || intro)|]. split; [vm_compute; repeat (split || intro)|].
+  split; [vm_compute; repeat split|]. vm_compute. repeat split.
+Qed.
